@@ -190,6 +190,61 @@ def methods():
     return sorted(k[3:] for k in algorithms if k.startswith("DE:"))
 
 
+def method_conflicts():
+    """German bank codes the bundled registry lists with MORE than one check-digit method"""
+    from schwifty import registry
+    seen = {}
+    for e in registry.get("bank"):
+        if e.get("country_code") == "DE" and e.get("bank_code"):
+            seen.setdefault(e["bank_code"], []).append(e.get("checksum_algo"))
+    return {k: v for k, v in seen.items() if len(set(v)) > 1}
+
+
+def conflict_witness(code, listed):
+    """an account number on which two of the listed methods disagree, and what the library then does"""
+    import random
+    from schwifty import IBAN
+    from schwifty.checksum import algorithms
+    from contracts.common import Num
+    rnd = random.Random(7)
+    ms = [m for m in dict.fromkeys(listed) if m and "DE:" + m in algorithms]
+    for _ in range(5000):
+        a = f"{rnd.randrange(10 ** 10):010d}"
+        verdicts = {}
+        for m in ms:
+            o = T.native_obs(algorithms["DE:" + m].validate, [a], "")
+            verdicts[m] = o is True
+        if len(set(verdicts.values())) > 1:
+            b = code + a
+            text = f"DE{98 - (Num(b + 'DE') * 100) % 97:02d}{b}"
+            lib = T.native_obs(lambda: IBAN(text, validate_bban=True))
+            return dict(bank_code=code, listed_methods=listed, account=a, verdict_per_listed_method=verdicts, iban=text,
+                        library="accepted" if not isinstance(lib, (T.ExcTag, T.Escape)) else repr(lib))
+    return dict(bank_code=code, listed_methods=listed)
+
+
+def method_data_check():
+    """the property speaks of THE method a bank code is listed with: the registry must list one per bank code"""
+    bad = method_conflicts()
+    wit = None
+    if bad:
+        code = sorted(bad)[0]
+        wit = conflict_witness(code, bad[code])
+    ob = dict(name="every German bank code of the registry is listed with one check-digit method (all its entries agree)",
+              kind="vc", status="discharged" if not bad else "refuted", backend="evaluation on the bundled registry",
+              secs=0.0, witness=wit,
+              detail="" if not bad else f"replayed natively: {len(bad)} bank code(s) listed with several methods, e.g. {wit}")
+    return dict(task="DE registry: method per bank code", obligations=[ob], functions={}, files={}, paths=0, error=None,
+                spec=["props.c07", "MethodDataReplay", []])
+
+
+class MethodDataReplay:
+    def native_agree(self, wit):
+        bad = method_conflicts()
+        code = wit.get("bank_code")
+        return code not in bad, bad.get(code), "one method per bank code"
+
+
 def main(seed, tier):
     from props import common
     t0 = time.time()
@@ -201,6 +256,7 @@ def main(seed, tier):
     ids = [v for v in CC.bank_variants("DE")] + ["<NONE>"]
     specs += [("props.c07", "DispatchTask", (m,)) for m in ids if m not in unspecified]
     results = common.run_tasks(specs, seed, tier)
+    results.append(method_data_check())
     if unspecified:
         results.append(dict(task="DE methods", obligations=[], error=f"unsupported: no sidecar spec for registered "
                             f"method(s) {unspecified}", functions={}, files={}, paths=0))
